@@ -188,6 +188,13 @@ Http::One::RequestParser::parseHttpVersionField(Tokenizer &tok)
                 tok.suffix(majorDigit, CharacterSet::DIGIT) &&
                 tok.skipSuffix(proto)) {
             const bool multiDigits = majorDigit.length() > 1 || minorDigit.length() > 1;
+            if (multiDigits) {
+                // HTTP-version has exactly one DIGIT on each side of the period; such a
+                // line used to fail only because the delimiter before it was left in the URI
+                debugs(33, ErrorLevel(), "ERROR: invalid request-line: multi-digit HTTP version");
+                parseStatusCode = Http::scBadRequest;
+                return false;
+            }
             // use '0.0' for unsupported multiple digit version numbers
             const unsigned int major = multiDigits ? 0 : (*majorDigit.rawContent() - '0');
             const unsigned int minor = multiDigits ? 0 : (*minorDigit.rawContent() - '0');
